@@ -31,6 +31,9 @@ Runs(pat, ws, we, min) ==
       <<a, b>> \in {<<a, b>> \in (0..Len(pat)) \X (0..Len(pat)) :
                        IsRun(pat, a, b) /\ b - a >= min /\ a < we /\ b > ws}}
 
+\* the requested minimum length is given in seconds: a run qualifies iff it is at least that long (and at least one slot)
+MinSlots(msec, g) == IF msec <= g THEN 1 ELSE (msec + g - 1) \div g
+
 \* weekly working-hours table (D1: a cross-midnight interval belongs to the day it starts on)
 InIv(iv, m)  == IF iv[2] > iv[1] THEN iv[1] <= m /\ m < iv[2] ELSE m >= iv[1]
 Spill(iv, m) == iv[2] <= iv[1] /\ m < iv[2]
@@ -79,7 +82,7 @@ Expected(B, c) ==
     [] c.op = "pd2i"  -> IndexOf(c.x, c.g)            \* only asked for instants of the window
     [] c.op = "pi2d"  -> TimeOf(c.x, c.g)
     [] c.op = "pd2ix" -> 0                             \* instants before the project start: no value is claimed, only py = cy (C13)
-    [] c.op = "runs"  -> Runs(c.pat, c.ws, c.we, c.min)
+    [] c.op = "runs"  -> Runs(c.pat, c.ws, c.we, MinSlots(c.minsec, c.g))
     [] c.op = "onshift" -> OnShiftMW(B.tables[c.h + 1], c.d, c.y)
     [] c.op = "dailymin" -> DailyMinutes(B.tables[c.h + 1][c.d + 1]) * 1000000
 Norm(c, v) == IF c.op = "runs" THEN ToPairs(v) ELSE v
